@@ -2,6 +2,7 @@ SPECIFICATION TraceSpec
 CONSTANTS
   Dials <- TrDials
   Accepts <- TrAccepts
+  AbortDials <- TrAborts
   DSide <- TrDSide
   DId <- TrDId
   ASide <- TrASide
@@ -15,6 +16,6 @@ CONSTANTS
   MaxNextId = 1000000
   Exact = TRUE
 CONSTRAINT TraceConstraint
-INVARIANTS Routing AckMatches NoBadAck NoPanic NoWedge
+INVARIANTS Routing AckMatches NoBadAck NoPanic NoWedge AllConfirmed
 POSTCONDITION TraceAccepted
 CHECK_DEADLOCK FALSE
